@@ -73,6 +73,23 @@ func render(r lib.Result) string {
 	return strings.ToUpper(r.Class)
 }
 
+// scribble overwrites a numeric result object in place; false when the value is not a number
+func scribble(v zygo.Sexp) bool {
+	switch x := v.(type) {
+	case *zygo.SexpInt:
+		x.Val = x.Val ^ 0x5a5a5a5a
+	case *zygo.SexpUint64:
+		x.Val = x.Val ^ 0x5a5a5a5a
+	case *zygo.SexpChar:
+		x.Val = x.Val ^ 0x5a5a
+	case *zygo.SexpFloat:
+		x.Val = x.Val*3 + 41.5
+	default:
+		return false
+	}
+	return true
+}
+
 var cmpOps = [][2]string{{"lt", "<"}, {"gt", ">"}, {"le", "<="}, {"ge", ">="}, {"eq", "=="}, {"ne", "!="}}
 var arOps = [][2]string{{"add", "+"}, {"sub", "-"}, {"mul", "*"}, {"div", "/"}}
 
@@ -129,12 +146,28 @@ func main() {
 	out.Rule = "boundary grid: all ordered pairs x 6 comparison + 4 arithmetic operators + mod (exhaustive), then random 64-bit patterns biased to powers of two and small magnitudes; a case is non-trivial when the two operands differ or are of different kinds; distinct = distinct (op,a,b) inputs"
 	env := zygo.NewZlisp()
 	env.StandardSetup()
+	overwritten := 0
 	run := func(kind, opname, opsym string, x, y val) {
 		env.AddGlobal("a", x.sexp())
 		env.AddGlobal("b", y.sexp())
 		r := lib.Eval(env, "("+opsym+" a b)", 100000)
 		input := kind + " " + opname + " " + x.key() + " " + y.key()
-		out.Case(input, render(r), x.key() != y.key(), kind+":"+opname, "types:"+string(x.kind)+string(y.kind))
+		obs := render(r)
+		if kind != "cmp" && r.Class == lib.OutValue {
+			// a result is a value of its own: overwriting the returned object in place (what
+			// (derefSet (& r) v) does at script level) must change neither the operands nor
+			// what the same operation returns next time (no shared / cached result objects)
+			ra0, rb0 := render(lib.Eval(env, "a", 1000)), render(lib.Eval(env, "b", 1000))
+			if scribble(r.Val) {
+				r2 := render(lib.Eval(env, "("+opsym+" a b)", 100000))
+				ra1, rb1 := render(lib.Eval(env, "a", 1000)), render(lib.Eval(env, "b", 1000))
+				if r2 != obs || ra1 != ra0 || rb1 != rb0 {
+					obs += ";RESULT-OBJECT-SHARED:again=" + r2 + ",a=" + ra1 + ",b=" + rb1
+				}
+				overwritten++
+			}
+		}
+		out.Case(input, obs, x.key() != y.key(), kind+":"+opname, "types:"+string(x.kind)+string(y.kind))
 		if x.key() == y.key() {
 			// the very same object on both sides (one variable mentioned twice): an identity
 			// shortcut must not bypass the NaN rules or the arithmetic
@@ -205,6 +238,7 @@ func main() {
 				run("mod", "mod", "mod", x, y)
 			}
 		}
+		out.Extra["results_overwritten_in_place_then_recomputed"] = overwritten
 		out.Extra["grid_values"] = len(g)
 		out.Extra["grid_exhaustive"] = true
 		n := 20000
